@@ -230,6 +230,15 @@ def run(ctx, rep):
                 "(on Unix `gen\\v1` is a directory of that name, not `v1` inside `gen`)" % (made, (", which rewrites the text (%s)" % sorted(set(rewriting))[:3]) if rewriting else ""))
                if made else "", c.span, fn=gfn.path, key="C20.dir-as-given|%s" % mir.short(gfn.path))
 
+    # clause 4c: ... and the command line itself hands the argument over whole: no argument of the CLI is split at a delimiter by the parser
+    # (`value_delimiter = ','` makes `clean gen,v2` clean `gen` and `v2`)
+    aug = [g2 for g2 in F.all_fns() if g2.path.endswith(("clap_builder::derive::Subcommand>::augment_subcommands", "clap_builder::derive::Args>::augment_args"))]
+    rep.floor("C20.dir-as-given argument builders of the CLI", len(aug), 1)
+    split = sorted({"%s in %s" % (mir.short(c2.callee()), mir.short(g2.path)) for g2 in aug for c2 in g2.calls()
+                    if mir.short(c2.callee()).endswith(("Arg::value_delimiter", "Arg::value_terminator", "Arg::use_value_delimiter"))})
+    rep.ob("C20.dir-as-given", "the command-line parser splits no argument at a delimiter", "violated" if split else "ok",
+           ("%s: a directory whose name contains the delimiter is never cleaned; the pieces are" % split) if split else "", f.span, fn=entry, key="C20.dir-as-given|parser-split")
+
     # clause 2, 3: every remove_file is guarded
     removes = []
     for gfn in local_reach:
